@@ -47,6 +47,7 @@ def run(ctx):
     ctx.call(GR.dependency_provenance, "7p")
     ctx.call(GR.dependency_table, "7t")
     ctx.call(GR.identity_forms, "8")
+    ctx.call(GR.name_forms, "8n")
     ctx.call(GR.node_objects, "9")
     ctx.call(GR.cloning, "10")
     ctx.call(GR.worker_symmetry, "12")
